@@ -335,6 +335,27 @@ def check_c05(tier, seed):
     out.traces += res["runs"]
     for m in res["mismatches"]:
         out.drift.append("%s case=%s %s" % (m["kind"], m["case"], json.dumps(m["detail"])[:300]))
+    # the counters feature of the diag build: the interpreter's stack high-water marks against the marks of the machine
+    # (binds the STEP STRUCTURE of Interp.tla to the code; conformance only, a difference is drift, not a C05 violation)
+    stk = {"runs": 0, "mismatches": 0}
+    for idx in range(1 if quick else 6):
+        p = os.path.join(work, "stk-%d-%d.ndjson" % (idx, os.getpid()))
+        C.run([bins["diag"]["run"], "record", "--profile", "STK", "--seed", str(seed * 100 + 50 + idx), "--n", "400" if quick else "4000",
+               "--out", p, "--repo", C.REPO, "--corpus", "0", "--heavy", "0"], timeout=1800)
+        nlines = sum(1 for _ in open(p))
+        r = C.run_tlc("TraceRun", workers=1, env={"TRACE": p}, deque=True, timeout=5400, name="TraceRun-stk-%d" % idx, xmx="3g")
+        C.tlc_ok_or_raise(r, "TraceRun(STK)")
+        done = r.tagged("TRACE-DONE")
+        if not done or done[-1]["lines"] != nlines:
+            raise C.ToolError("STK trace not fully consumed")
+        out.add_tlc(r)
+        stk["runs"] += done[-1]["cnt"]["runs"] - done[-1]["cnt"]["abstained"]
+        for m in r.tagged("MISMATCH"):
+            if m["kind"] == "stacks":
+                stk["mismatches"] += 1
+            out.drift.append("STK %s case=%s %s" % (m["kind"], m["case"], json.dumps(m["detail"])[:300]))
+        os.remove(p)
+    out.extra["stack_marks"] = stk
     out.nontrivial = out.evaluations
     out.rule = ("the default, no-fastpath and counters+pre-eval (observe-only callback) builds of the harness record the same "
                 "seeded cases (fast-path-biased programs; direct add/sub/mul/>/sha256 calls on small-integer-biased arguments with "
